@@ -257,7 +257,7 @@ theorem system_txs_repaired (fl : Flags) (hr : Repaired8 fl) (bc : BCtx) (u : Li
     ∧ (bc.cx.vau = true → bc.atrOk = true) ∧ ((∃ tx ∈ txs, tx.typ = .issuance) → bc.id ≤ 1) := by
   simp only [blockAccepts, blockValidate, feeRule, hr.singleFeeTx, Bool.and_eq_true, Bool.not_eq_true',
     Bool.and_eq_false_iff, if_true, List.all_eq_true, decide_eq_true_eq, decide_eq_false_iff_not] at hacc
-  obtain ⟨_, ⟨⟨⟨⟨⟨⟨_, hiss⟩, _⟩, hatr⟩, _⟩, hfee, hlen⟩, _⟩⟩ := hacc
+  obtain ⟨_, ⟨⟨⟨⟨⟨⟨⟨_, hiss⟩, _⟩, hatr⟩, _⟩, _⟩, hfee, hlen⟩, _⟩⟩ := hacc
   refine ⟨fun tx hm ht => hfee tx (List.mem_filter.2 ⟨hm, by simp [isType, ht]⟩), hlen, ?_, ?_⟩
   · intro hv
     rcases hatr with h | h
